@@ -92,6 +92,71 @@ theorem honest_ct_hashes_accepted {E : Env H} {cfg : Cfg} (hstrict : StrictPrese
       (hashes := hs) (leaves := []) (new := hs) (by simp [mergeLeaves]) hok
     rw [this]
 
+/-- **the block-hash stage accepts genuine hashes**: on a node whose block hash tree for share `shnum` is a closed
+    partial copy of the published tree `T` of that share and does not yet hold the leaf of segment `segnum`, a share
+    that answers every requested block hash with the published node passes `_satisfy_block_hash_tree` (C35
+    completeness, the same argument as for the crypttext hash tree) -/
+theorem honest_block_hashes_accepted {E : Env H} {cfg : Cfg} (hstrict : StrictPresence E.ops cfg)
+    (pick : List Nat → Nat) (shnum segnum : Nat) (v : View H) (nd : Node H) {T : Tree H} {u : UEB H} {sz : Sizes}
+    (hk : nd.known = some (u, sz)) (hT : Genuine E.ops T) (hlen : (nd.blockTree shnum sz.numSegs).length = T.length)
+    (hag : Agree (nd.blockTree shnum sz.numSegs) T) (hcl : Closed (nd.blockTree shnum sz.numSegs))
+    (hL : firstLeafNum sz.numSegs + segnum < (nd.blockTree shnum sz.numSegs).length)
+    (hnew : get (nd.blockTree shnum sz.numSegs) (firstLeafNum sz.numSegs + segnum) = none)
+    (hhonest : ∀ i, i < T.length → v.blockHashes i = get T i) :
+    (stageBlockHashes E cfg pick shnum segnum v nd).1 = none := by
+  unfold stageBlockHashes
+  rw [hk]
+  simp only
+  have hneeded : neededHashes? (nd.blockTree shnum sz.numSegs) (firstLeafNum sz.numSegs) segnum true =
+      some ((neededFor (firstLeafNum sz.numSegs + segnum) ++ [firstLeafNum sz.numSegs + segnum]).filter
+        (fun i => (get (nd.blockTree shnum sz.numSegs) i).isNone)) := by
+    unfold neededHashes? completeNeededHashes? neededFor?
+    have : ¬ (firstLeafNum sz.numSegs + segnum ≥ (nd.blockTree shnum sz.numSegs).length) := by omega
+    simp [this]
+  rw [hneeded]
+  generalize hnd : ((neededFor (firstLeafNum sz.numSegs + segnum) ++ [firstLeafNum sz.numSegs + segnum]).filter
+        (fun i => (get (nd.blockTree shnum sz.numSegs) i).isNone)) = needed
+  have hodd : (nd.blockTree shnum sz.numSegs).length % 2 = 1 := by rw [hlen]; exact hT.odd
+  have hrange : ∀ i ∈ needed, i < T.length := by
+    intro i hi
+    rw [← hlen]
+    exact neededHashes?_lt hodd (by rw [hneeded, hnd]) i hi
+  have hLmem : firstLeafNum sz.numSegs + segnum ∈ needed := by
+    rw [← hnd]; simp [hnew]
+  obtain ⟨hs, hc, hcov, hval⟩ := collect_total (needed := needed) (f := v.blockHashes) (by
+    intro i hi
+    rw [hhonest i (hrange i hi)]
+    cases hg : get T i with
+    | none => exact absurd hg (hT.full i (hrange i hi))
+    | some w => rfl)
+  cases hnl : needed with
+  | nil => rw [hnl] at hLmem
+  | cons a rest =>
+    simp only
+    rw [← hnl, hc]
+    simp only
+    have hkeys : ∀ i w, (i, w) ∈ hs → i ∈ neededFor (firstLeafNum sz.numSegs + segnum) ∨ i = firstLeafNum sz.numSegs + segnum := by
+      intro i w hm
+      have := collect_keys hc (i, w) hm
+      rw [← hnd] at this
+      have := (List.mem_filter.mp this).1
+      cases List.mem_append.mp this with
+      | inl e => exact Or.inl e
+      | inr e => exact Or.inr (by simpa using e)
+    obtain ⟨st1, hok⟩ := tryBody_complete (ops := E.ops.withCfg cfg) hstrict ⟨hT.odd, hT.full, hT.node⟩ hlen hag hcl
+      (firstLeafNum sz.numSegs + segnum) hL pick hs
+      (by intro i w hm; rw [← hhonest i (by rw [← hlen]; exact neededHashes?_lt hodd (by rw [hneeded, hnd]) i (collect_keys hc (i, w) hm))]; exact hval i w hm)
+      hkeys
+      (by
+        intro i hi hnone
+        apply hcov
+        rw [← hnd]
+        exact List.mem_filter.mpr ⟨List.mem_append_left _ hi, by simp [hnone]⟩)
+      (hcov _ hLmem)
+    have := setHashes_ok_of (ops := E.ops) (cfg := cfg) (pick := pick) (first := firstLeafNum sz.numSegs) (t := (nd.blockTree shnum sz.numSegs))
+      (hashes := hs) (leaves := []) (new := hs) (by simp [mergeLeaves]) hok
+    rw [this]
+
 omit [DecidableEq H] in
 /-- a freshly seeded tree (only the root stored) is closed -/
 theorem seed_closed (n : Nat) (r : H) : Closed (seed (newTree H n) r) := by
